@@ -15,6 +15,7 @@ import ToastyVerif.Model.Filter
 import ToastyVerif.Gen.Filter
 import ToastyVerif.Lemmas.RatArith
 import ToastyVerif.Gen.Samplers
+import ToastyVerif.Gen.Plumbing
 
 namespace C07
 open Filter
@@ -501,5 +502,9 @@ example : intersects (6283185307 / 1000000000) (3141592653 / 1000000000) (157079
 
 /-- a 10 × 6 map in 4 × 4 chunks: pixel (9, 5) lies in chunk 5, whose rectangle is (8, 4, 2, 2) -/
 example : chunkOf 10 4 4 9 5 = 5 ∧ Gen.Filter.chunk_spec 10 6 4 4 5 = (8, 4, 2, 2) ∧ Gen.Filter.n_chunks 10 6 4 4 = 6 := by decide
+
+/-- **entry_points**: the call sites through which this property's workflows reach the modelled functions have, in the source as
+it is now, the argument plumbing the model assumes (facts re-extracted on every run, `Gen/Plumbing.lean`) -/
+theorem entry_points : Gen.Plumbing.tile_toast_filters = true := by decide
 
 end C07
